@@ -74,7 +74,7 @@ TRUSTED_BASE = ['modelled (not verified) code: pybtex/database/input/bibtex.py L
                 'non-strict mode is observed through the warnings printed to pybtex.io.stderr (replaced by a StringIO)']
 ASSUMPTIONS = ['Python str.isspace / regex \\s = the 29 code points of Base/PyChar.is_space', 'str.lower() = ASCII lower on the characters used as keys / identifiers (non-ASCII cased letters are outside the generated domain)']
 PARTIAL = ['for the reader with options (Model/BibParserOpt.v) totality, located errors, capture = non-strict and strict-raises-first are proved (*_options); the confinement theorems are about the default options',
-           'character-level suffix confinement (entries after a balanced malformed entry) is not proved: command level + oracle only',
+           'character-level suffix confinement is proved under the semantic hypothesis that the corrupted text is never read past its own end (Props/C10.v suffix_confinement); that balanced corruptions satisfy it is checked by the oracle per generated case, not proved in general',
            'confinement is proved at command level (Props/C10.v: prefix_confinement_partial / suffix_confinement_partial); the character-level statement for arbitrary balanced corrupted text is left to the correspondence run and the oracle',
            'errors_located is proved for syntax errors (line = 1 + line breaks consumed, position inside the command); that the position is the "offending construct" in the user\'s sense is not formalised']
 
@@ -277,6 +277,8 @@ def gen(tier, rng):
                 if oneline:
                     b, bad, a = b.replace('\n', ' '), bad.replace('\n', ' '), a.replace('\n', ' ')
                 yield ('corruption_one_line', 8, [b, bad, a])
+    for bad in ('@a(k)', '@a(k2)', '@misc (k2)'):      # a parenthesised key glued to ')' and to the next entry
+        yield ('corruption_one_line', 8, ['@string{mm = "M"}\n@book{k1, title = {One}} ', bad, '@book{k3, title = mm # {Three}, year = 1}\n'])
     # the corruption contexts again with CR / CR LF / mixed line ends (error lines must stay inside the entry)
     for nl in ['\r', '\r\n', '\n\r']:
         k = 0
@@ -499,7 +501,8 @@ _NAME_CH = set('abcdefghijklmnopqrstuvwxyzABCDEFGHIJKLMNOPQRSTUVWXYZ0123456789@!
 def f25_shape(bad, after=''):
     """'@' is a NAME character: a stray '@' is glued to the type of the next entry, and the '@' of an entry that
     directly follows (no whitespace) a corrupted entry ending inside a name is glued to that name"""
-    return bad.rstrip().endswith('@') or (bad != '' and bad[-1] in _NAME_CH and after.startswith('@'))
+    return (bad.rstrip().endswith('@') or (bad != '' and bad[-1] in _NAME_CH and after.startswith('@'))
+            or (after.startswith('@') and re.search(r'\([^\s,]*$', bad) is not None))     # ... or inside a parenthesised key
 
 KNOWN_SIGNATURES = {
     'F25': lambda kind, fn, arg, detail: fn == 8 and kind == 'oracle' and f25_shape(S(arg[1]), S(arg[2])) and 'altered the entries after it' in str(detail),
